@@ -148,6 +148,8 @@ struct Obs {
     value: BTreeMap<String, String>,
     /// the persistent process's locals, canonical
     locals: Vec<String>,
+    /// `Repl::get_last_result_type()` (Debug form; type ids are stable within a session)
+    last_ty: String,
 }
 
 fn observe(sim: &mut Sim) -> Obs {
@@ -157,6 +159,7 @@ fn observe(sim: &mut Sim) -> Obs {
         sim.fair_round();
     }
     let vars = sim.repl.as_ref().unwrap().get_variables();
+    o.last_ty = format!("{:?}", sim.repl.as_ref().unwrap().get_last_result_type());
     o.order = vars.iter().map(|(n, _)| n.clone()).collect();
     for (name, _) in &vars {
         let mut repl = sim.repl.take().unwrap();
@@ -479,7 +482,7 @@ fn run_lines(ev: &mut Ev, model: &mut Model, si: u64, lines: Vec<Step>, r: &mut 
     ev.hit(if random_schedule { "schedule:random" } else { "schedule:fair" });
 
     let nil_tok = tok("t(_;)");
-    let _ = model.ask(&format!("(reset {nil_tok})"));
+    let _ = model.ask(&format!("(reset {nil_tok} {})", tok("Tuple(0)")));
     let mut accepted: Vec<String> = vec![]; // accepted step texts so far (for the one-program oracle)
     // a type-definition-only line was accepted since the last line that produced a value (known finding:
     // such a line overwrites the REPL's type of the previous result with nil)
@@ -572,10 +575,11 @@ fn run_lines(ev: &mut Ev, model: &mut Model, si: u64, lines: Vec<Step>, r: &mut 
                 let appended: Vec<String> = obs.locals.iter().skip(n_before).map(|s| tok(s)).collect();
                 let b: Vec<String> = obs.index.iter().map(|(n, i)| format!("({n} {i})")).collect();
                 let model_ans = model.ask(&format!(
-                    "(line ran (bindings {}) (appended {}) (result {}))",
+                    "(line ran (bindings {}) (appended {}) (result {} {}))",
                     b.join(" "),
                     appended.join(" "),
-                    tok(v)
+                    tok(v),
+                    tok(&obs.last_ty)
                 ));
                 compare_with_model(ev, si, li, &src, &model_ans, &obs, &lines, &transcript, &replay);
                 // ---- oracle: the accepted steps as ONE program ----
@@ -683,6 +687,7 @@ fn compare_with_model(
     let mut mb: BTreeMap<String, usize> = BTreeMap::new();
     let mut ml: Vec<String> = vec![];
     let mut viol = String::new();
+    let mut mty = String::new();
     for part in ans.split_whitespace() {
         if let Some(b) = part.strip_prefix("b=") {
             for e in b.split(',').filter(|e| !e.is_empty()) {
@@ -694,6 +699,8 @@ fn compare_with_model(
             ml = l.split(',').filter(|e| !e.is_empty()).map(|s| s.to_string()).collect();
         } else if let Some(v) = part.strip_prefix("viol=") {
             viol = v.to_string();
+        } else if let Some(t) = part.strip_prefix("ty=") {
+            mty = t.to_string();
         }
     }
     if !ans.starts_with("b=") {
@@ -715,6 +722,11 @@ fn compare_with_model(
         violation(ev, "locals-differ-from-model",
             format!("session {si} line {li} `{src}`: model locals {} vs observed {} ({:?})", ml.len(), ol.len(), obs.locals),
             json!({"broken": "correspondence M-Repl<->worker on locals (compact_locals / release_orphan_locals / frame exit)", "model": ml, "observed": obs.locals, "session": replay(lines, transcript)}), false);
+    }
+    if mty != tok(&obs.last_ty) {
+        violation(ev, "last-result-type-differs-from-model",
+            format!("session {si} line {li} `{src}`: the REPL records the type {} for the flowing result, the model (a line that runs no code keeps the result's type) predicts another", obs.last_ty),
+            json!({"broken": "correspondence M-Repl<->Repl on last_result_type (C11.runLine_preserves_argTyped / code_less_line_keeps_result_and_type)", "observed": obs.last_ty, "session": replay(lines, transcript)}), false);
     }
     ev.hit("checked:model-state");
 }
